@@ -105,7 +105,7 @@ func WriterMain(arg string) int {
 		emit(out, "ACK", AckLine{I: i, OK: st.Res.OK(), Obs: st.PostObs, Doc: *doc})
 	}
 	g := &kv.Gen{R: r, Keys: []string{"k0", "k1", "k2"}, Colls: 3, Bkts: 1, Hnd: 1}
-	prof := kv.Uniform(3).With(kv.KPurge, 0, kv.KDropColl, 0, kv.KSetMeta, 2, kv.KDelMeta, 1)
+	prof := kv.Uniform(3).With(kv.KPurge, 0, kv.KDropColl, 0, kv.KSetMeta, 6, kv.KDelMeta, 4)
 	for i = 0; i < a.Ops; i++ {
 		op := g.Random(prof)
 		if op.Exp != 0 && op.Exp < 60*60*24*30 {
@@ -116,7 +116,9 @@ func WriterMain(arg string) int {
 			op.CbExp = &e
 		}
 		sim.Do(op)
-		if i%5 == 4 {
+		if i%5 == 4 || a.Seed%2 == 0 {
+			// bring the view index up to date (after every call in half of the histories), so that a crash which
+			// commits a document without its collection's high-water mark shows as a stale view after reopen
 			_, _ = col0.View(context.Background(), "cd", "all", map[string]interface{}{})
 			emit(out, "VIEWED", map[string]int{"i": i})
 		}
